@@ -168,7 +168,8 @@ NAME_POOL = ["main", "inner", "a", "b", "a.b", "main.inner", "er", "in", "n", "n
              "name", "payload", "outputs", "__cut__", "ina", "nia.m", "r", "e", "inner.er", "ner"]
 PLAIN_POOL = [f"node{i}" for i in range(40)]
 OUTPUT_SETS = [["0"], ["0"], ["0"], ["0", "1"], ["a", "b"], ["0", "out"], ["x"], ["0", "1", "2"]]
-HOSTILE_OUTPUT_SETS = [["name"], ["payload", "0"], ["inputs"], ["outputs", "name"], ["copy"], ["0", "name"], ["serialise"], ["is_sink"]]
+HOSTILE_OUTPUT_SETS = [["name"], ["payload", "0"], ["inputs"], ["outputs", "name"], ["copy"], ["0", "name"], ["serialise"], ["is_sink"],
+                       ["", "0"], ["a", ""], ["0", "00"], ["None", "0"], ["False", "x"], [" ", "0"], ["1", "0"]]     # falsy-looking / empty / padded names
 INPUT_NAMES = ["input", "x", "y", "0", "1", "a", "b", "nm", "in put", "input0", "input1", "é"]
 
 
